@@ -1,11 +1,12 @@
 package lib
 
 // Correspondence driver for C10 (detector announcements).  It points the package's redis client
-// at an in-process RESP stand-in, runs the real sendToDetector / clearDetector / ingest code on
+// at an in-process RESP stand-in, runs the real sendToDetector / Cleanup / ingest / shutdown code on
 // the cases it is given and records what was published.  No assertions about conjure.
 
 import (
 	"bufio"
+	"context"
 	"encoding/hex"
 	"encoding/json"
 	"fmt"
@@ -162,7 +163,7 @@ type c10Case struct {
 	Reg  c10Reg `json:"reg"`
 	Dur  string `json:"dur"`
 	Op   int32  `json:"op"`
-	Via  string `json:"via"` // clear: "clearDetector" | "Cleanup"
+	Via  string `json:"via"` // clear: "fresh" | "used"; shutdown: "idle" | "busy"; pubfail: "err" | "close"
 
 	// ingest
 	En4       bool    `json:"en4"`
@@ -215,6 +216,7 @@ type c10Res struct {
 	Direct6  *c10RegOut  `json:"direct6"`
 	Meta     interface{} `json:"meta"`
 	PubFail  interface{} `json:"pubfail"`
+	Info     interface{} `json:"info"`
 }
 
 func c10Hexp(b []byte) *string {
@@ -354,7 +356,11 @@ func c10Run(t *testing.T, srv *c10Redis, c c10Case) (res c10Res) {
 		reg := &DecoyRegistration{PhantomIp: net.IP(c10Unhexp(c.Reg.Phantom)), registrationAddr: net.IP(c10Unhexp(c.Reg.Addr)),
 			PhantomPort: uint16(c.Reg.Port), PhantomProto: pb.IPProto(c.Reg.Proto)}
 		dur, _ := strconv.ParseUint(c.Dur, 10, 64)
-		sendToDetector(reg, dur, pb.StationOperations(c.Op))
+		if !c10HaveSend {
+			res.Err = "skipped: sendToDetector shim not available"
+			return
+		}
+		c10Send(reg, dur, pb.StationOperations(c.Op))
 	case "announce":
 		// the real register() / markActive() paths of a fresh registration table
 		rm := c10Manager(t, c10DefaultSubnets)
@@ -393,12 +399,108 @@ func c10Run(t *testing.T, srv *c10Redis, c c10Case) (res c10Res) {
 			"attempts": att,
 		}
 	case "clear":
-		if c.Via == "Cleanup" {
-			rm := c10Manager(t, c10DefaultSubnets)
-			rm.Cleanup()
-		} else {
-			clearDetector()
+		// always through the exported entry point main() uses: on a manager whose pipeline never ran
+		// ("fresh"), or on one that has validated and used registrations ("used")
+		rm := c10Manager(t, c10DefaultSubnets)
+		if c.Via == "used" {
+			secret, _ := hex.DecodeString(c.Secret)
+			src := pb.RegistrationSource_API
+			reg := &DecoyRegistration{PhantomIp: net.IP(c10Unhexp(c.Reg.Phantom)), registrationAddr: net.IP(c10Unhexp(c.Reg.Addr)),
+				PhantomPort: uint16(c.Reg.Port), PhantomProto: pb.IPProto(c.Reg.Proto),
+				Keys: &core.ConjureSharedKeys{SharedSecret: secret}, Transport: pb.TransportType_Min, RegistrationSource: &src}
+			rm.AddRegistration(reg)
+			rm.MarkActive(reg)
+			srv.take()
 		}
+		rm.Cleanup()
+	case "shutdown":
+		// the station's shutdown sequence as cmd/application/main.go runs it: the ingest pipeline is
+		// started with a context, a registration comes in and is announced, the context is cancelled,
+		// main waits for the pipeline, and only then the deferred Cleanup() runs
+		rm := c10Manager(t, c.Subnets)
+		if rm == nil {
+			res.Err = "no manager"
+			return
+		}
+		rm.EnableIPv4, rm.EnableIPv6 = true, true
+		rm.IngestWorkerCount = 30
+		secret, _ := hex.DecodeString(c.Secret)
+		tt := pb.TransportType_Min
+		covert := "192.0.2.55:443"
+		fl, tr := false, true
+		c2s := &pb.ClientToStation{DecoyListGeneration: &c.Gen, CovertAddress: &covert, V4Support: &fl, V6Support: &tr,
+			Transport: &tt, ClientLibVersion: &c.LibVer}
+		source := pb.RegistrationSource_API
+		raw, err := proto.Marshal(&pb.C2SWrapper{SharedSecret: secret, RegistrationPayload: c2s, RegistrationSource: &source,
+			RegistrationAddress: c10Unhexp(c.Addr)})
+		if err != nil {
+			res.Err = "marshal: " + err.Error()
+			return
+		}
+		ctx, cancel := context.WithCancel(context.Background())
+		defer cancel()
+		wg := new(sync.WaitGroup)
+		regChan := make(chan interface{}, 10000)
+		wg.Add(1)
+		go rm.HandleRegUpdates(ctx, regChan, wg)
+		// the distributor drops a message when no worker is free at that instant (by design); repeat the
+		// registration until it has been announced (duplicates are not announced again)
+		deadline := time.Now().Add(10 * time.Second)
+		for i := 0; time.Now().Before(deadline); i++ {
+			srv.mu.Lock()
+			n := len(srv.pubs)
+			srv.mu.Unlock()
+			if n > 0 {
+				break
+			}
+			if i%10 == 0 {
+				regChan <- raw
+			}
+			time.Sleep(5 * time.Millisecond)
+		}
+		stopFeed := make(chan struct{})
+		feedDone := make(chan struct{})
+		go func() { // busy input: the same registration again and again, and undecodable messages
+			defer close(feedDone)
+			if c.Via != "busy" {
+				return
+			}
+			for {
+				select {
+				case <-stopFeed:
+					return
+				default:
+				}
+				select {
+				case regChan <- raw:
+				case regChan <- []byte{0xff, 0x01}:
+				default:
+					time.Sleep(time.Millisecond)
+				}
+			}
+		}()
+		if c.Via == "busy" {
+			time.Sleep(30 * time.Millisecond)
+		}
+		before := srv.take()
+		for _, p := range before {
+			res.Msgs = append(res.Msgs, c10Decode(p))
+		}
+		cancel()
+		returned := make(chan struct{})
+		go func() { wg.Wait(); close(returned) }()
+		stopped := false
+		select {
+		case <-returned:
+			stopped = true
+		case <-time.After(15 * time.Second):
+		}
+		if stopped {
+			rm.Cleanup() // main(): runs when main returns, i.e. after cancel() and wg.Wait()
+		}
+		close(stopFeed)
+		<-feedDone
+		res.Info = map[string]interface{}{"before": len(before), "pipeline_returned": stopped}
 	case "ingest":
 		rm := c10Manager(t, c.Subnets)
 		if rm == nil {
